@@ -214,6 +214,16 @@ def VModel {α} (tl : TL) (ports : List String) (stmts : List Stmt) (z : α) (ne
   (∀ ts ∈ vPairs stmts, σ ts.1 = sigVal z prim σ ts.2) ∧
   (∀ s, (drivenSigs tl (sigDecls stmts) stmts).contains s = false → σ s = z)
 
+/-- `σ` is a model of the module OUTSIDE the instances selected by `HI` (the "holes": instances whose meaning is given from
+outside — library cells, C10): the outputs of a hole are unconstrained, everything else as in `VModel` -/
+def VModelOff {α} (HI : VInst → Prop) (tl : TL) (ports : List String) (stmts : List Stmt) (z : α) (neg : α → α)
+    (prim : String → α → α → α → α → α) (a : Nat → α) (σ : String → α) : Prop :=
+  (∀ i ∈ vInsts stmts, ¬ HI i → ∀ o ∈ outConn tl (sigDecls stmts) i,
+    σ o.2 = instVal tl z neg prim a (vSPos ports stmts (.cell i.name 0)) i o.1 σ) ∧
+  (∀ n ∈ inputNames (sigDecls stmts), σ n = a (vSPos ports stmts (.cell n 0))) ∧
+  (∀ ts ∈ vPairs stmts, σ ts.1 = sigVal z prim σ ts.2) ∧
+  (∀ s, (drivenSigs tl (sigDecls stmts) stmts).contains s = false → σ s = z)
+
 /-- what the module observes per `s_nodes` position: an output port bit its signal, a state element the signal on its input pin
 index 0, nothing at input ports -/
 def vCaptures {α} (tl : TL) (ports : List String) (stmts : List Stmt) (z : α) (prim : String → α → α → α → α → α) (σ : String → α) :
